@@ -302,8 +302,14 @@ Definition rec_detect (cs : cstate) : cstate :=
   let rcor2 := rec_merge rcor1 (c_cb cs) in
   let merged := map fst (c_cb cs) in
   let dtr := s_dtr (c_base cs) in
-  (* the monitor can only call a server down that it knows (one that has sent this incarnation a heartbeat) *)
-  let down := filter (fun ts => zmem ts (known_of (c_base cs) (s_gen (c_base cs)))) (c_down cs) in
+  (* tsStatus.down of this incarnation's monitor: a server that has heartbeaten to it and is believed down, or a server
+     the monitor only EXPECTS - updateTsmonLoop seeds the monitor with the durable known-tractserver set, which contains
+     every server of every committed host list (ExtendBlob, ChangeTract ... call ensureKnownTSIDs) - and that has not
+     heartbeaten to this incarnation (the start-up grace period is over).  Only hosts of durable tracts matter to
+     tractTask, and those are all in the durable set. *)
+  let beaten := known_of (c_base cs) (s_gen (c_base cs)) in
+  let down := filter (fun ts => zmem ts beaten) (c_down cs) ++
+              filter (fun h => negb (zmem h beaten)) (flat_map (fun x => snd (snd x)) dtr) in
   let '(rcor3, rent3, unrec) := fold_left (rec_each down) dtr (rcor2, rent1, []) in
   (* pruneDeletedCorrupt: records neither merged nor visited in this round go *)
   let rcor4 := filter (fun '(tk, _) => tmem tk merged || match tget dtr tk with Some _ => true | None => false end) rcor3 in
